@@ -103,7 +103,7 @@ def scenarios():
         for k in range(2, 32, step):
             size = 1 << k
             mask = (~(size - 1)) & 0xfffffffc
-            base = 0x0000c000 & mask if k <= 14 else (0x80000000 & mask)
+            base = 0x0000c00c & mask if k <= 14 else (0x80000000 & mask)  # bits 2-3 are address bits of an I/O BAR
             out.append(('io 2^%d' % k, slot, {slot: ('io', base | 1, mask)}, ('IO', base, size)))
         for k in list(range(4, 64, 3)) + [31, 32, 33, 63]:
             size = 1 << k
